@@ -26,6 +26,8 @@ var c11Exts = []c11Ext{
 	{"task", noneOf("["), false},
 	{"footnote", func(d []byte) bool { return !bytes.Contains(d, []byte("[^")) }, false},
 	{"deflist", noneOf(":"), false},
+	{"tablex", noneOf("-"), false},
+	{"footnotex", func(d []byte) bool { return !bytes.Contains(d, []byte("[^")) }, false},
 	{"typo", noneOf("'\"-.<>"), false},
 	{"linkify", func(d []byte) bool {
 		return !bytes.ContainsAny(d, ":@") && !bytes.Contains(bytes.ToLower(d), []byte("www."))
@@ -212,12 +214,12 @@ func runC11(c *Ctx) {
 // every extension on top of every other single extension: B+E against B, on the documents free
 // of E's trigger characters (they may well use B's syntax)
 func c11Pairwise(c *Ctx, items []docItem) {
-	names := []string{"strike", "table", "task", "footnote", "deflist", "typo", "linkify", "cjk", "cjkesc", "cjkcss3"}
+	names := []string{"strike", "table", "task", "footnote", "deflist", "typo", "linkify", "cjk", "cjkesc", "cjkcss3", "tablex", "footnotex"}
 	var cfgs []Cfg
 	for _, b := range names {
 		cfgs = append(cfgs, Cfg{Ext: b})
 		for _, e := range names {
-			if e != b && !(strings.HasPrefix(e, "cjk") && strings.HasPrefix(b, "cjk")) {
+			if e != b && !(strings.HasPrefix(e, "cjk") && strings.HasPrefix(b, "cjk")) && strings.TrimSuffix(e, "x") != strings.TrimSuffix(b, "x") {
 				cfgs = append(cfgs, Cfg{Ext: "pair:" + b + ":" + e})
 			}
 		}
